@@ -221,12 +221,109 @@ def _manual_groupby(init: ast.stmt, loop: ast.stmt, tail: ast.stmt):
     return loop.iter, K, E, G
 
 
+def _break_loop(loop: ast.stmt, acc: str):
+    """for x in XS: if B: break; acc.append(x)     ->  (XS, B, x)   - or None"""
+    if not (isinstance(loop, ast.For) and not loop.orelse and isinstance(loop.target, ast.Name) and len(loop.body) == 2):
+        return None
+    x = loop.target.id
+    brk, emit = loop.body
+    if not (isinstance(brk, ast.If) and not brk.orelse and len(brk.body) == 1 and isinstance(brk.body[0], ast.Break)):
+        return None
+    if not (isinstance(emit, ast.Expr) and isinstance(emit.value, ast.Call) and isinstance(emit.value.func, ast.Attribute)
+            and isinstance(emit.value.func.value, ast.Name) and emit.value.func.value.id == acc
+            and emit.value.func.attr == "append" and len(emit.value.args) == 1 and not emit.value.keywords
+            and isinstance(emit.value.args[0], ast.Name) and emit.value.args[0].id == x):
+        return None
+    if _mentions(loop, acc) != 1:
+        return None
+    return loop.iter, brk.test, x
+
+
+def _index_scan(init: ast.stmt, loop: ast.stmt):
+    """i = 0; while i < len(XS) and P(XS[i]): i += 1     ->  (i, XS, P with XS[i] replaced by the lambda parameter)  - or None
+    (afterwards i is the length of the longest prefix of XS whose elements all satisfy P)"""
+    if not (isinstance(init, ast.Assign) and len(init.targets) == 1 and isinstance(init.targets[0], ast.Name)
+            and isinstance(init.value, ast.Constant) and init.value.value == 0 and type(init.value.value) is int):
+        return None
+    i = init.targets[0].id
+    if not (isinstance(loop, ast.While) and not loop.orelse and len(loop.body) == 1):
+        return None
+    step = loop.body[0]
+    if not (isinstance(step, ast.AugAssign) and isinstance(step.op, ast.Add) and isinstance(step.target, ast.Name)
+            and step.target.id == i and isinstance(step.value, ast.Constant) and step.value.value == 1):
+        return None
+    t = loop.test
+    if not (isinstance(t, ast.BoolOp) and isinstance(t.op, ast.And) and len(t.values) >= 2):
+        return None
+    bound = t.values[0]
+    if not (isinstance(bound, ast.Compare) and len(bound.ops) == 1 and isinstance(bound.ops[0], ast.Lt)
+            and isinstance(bound.left, ast.Name) and bound.left.id == i
+            and isinstance(bound.comparators[0], ast.Call) and isinstance(bound.comparators[0].func, ast.Name)
+            and bound.comparators[0].func.id == "len" and len(bound.comparators[0].args) == 1):
+        return None
+    xs = bound.comparators[0].args[0]
+    xs_dump = ast.dump(xs)
+    param = "__sa_p__"
+
+    class Repl(ast.NodeTransformer):
+        ok = True
+
+        def visit_Subscript(self, n):
+            if ast.dump(n.value) == xs_dump and isinstance(n.slice, ast.Name) and n.slice.id == i and isinstance(n.ctx, ast.Load):
+                return ast.copy_location(ast.Name(id=param, ctx=ast.Load()), n)
+            return self.generic_visit(n)
+
+        def visit_Name(self, n):
+            if n.id == i:
+                self.ok = False
+            return n
+    import copy
+    rest = [copy.deepcopy(v) for v in t.values[1:]]
+    r = Repl()
+    rest = [r.visit(v) for v in rest]
+    if not r.ok:
+        return None
+    P = rest[0] if len(rest) == 1 else ast.BoolOp(op=ast.And(), values=rest)
+    return i, xs, P, param
+
+
 class _Desugar(ast.NodeTransformer):
     def _block(self, stmts: List[ast.stmt]) -> List[ast.stmt]:
         out: List[ast.stmt] = []
         i = 0
         while i < len(stmts):
             s = stmts[i]
+            # prefix scan by index:  i = 0; while i < len(xs) and P(xs[i]): i += 1
+            if i + 1 < len(stmts):
+                sc = _index_scan(s, stmts[i + 1])
+                if sc is not None:
+                    name, xs, P, param = sc
+                    lam = ast.Lambda(args=ast.arguments(posonlyargs=[], args=[ast.arg(arg=param)], kwonlyargs=[], kw_defaults=[],
+                                                        defaults=[]), body=P)
+                    new = ast.Assign(targets=[ast.Name(id=name, ctx=ast.Store())],
+                                     value=ast.Call(func=ast.Name(id="__sa_prefixlen__", ctx=ast.Load()), args=[lam, xs], keywords=[]))
+                    ast.copy_location(new, stmts[i + 1])
+                    ast.fix_missing_locations(new)
+                    out.append(new)
+                    i += 2
+                    continue
+            # "take until B":  acc = []; for x in xs: if B: break; acc.append(x)
+            acc1 = _empty_acc(s)
+            if acc1 is not None and acc1[1] == "list" and i + 1 < len(stmts):
+                bl = _break_loop(stmts[i + 1], acc1[0])
+                if bl is not None:
+                    xs, B, x = bl
+                    lam = ast.Lambda(args=ast.arguments(posonlyargs=[], args=[ast.arg(arg=x)], kwonlyargs=[], kw_defaults=[],
+                                                        defaults=[]), body=ast.UnaryOp(op=ast.Not(), operand=B))
+                    value = ast.Call(func=ast.Name(id="list", ctx=ast.Load()),
+                                     args=[ast.Call(func=ast.Name(id="__sa_takewhile__", ctx=ast.Load()), args=[lam, xs], keywords=[])],
+                                     keywords=[])
+                    new = ast.Assign(targets=[ast.Name(id=acc1[0], ctx=ast.Store())], value=value)
+                    ast.copy_location(new, stmts[i + 1])
+                    ast.fix_missing_locations(new)
+                    out.append(new)
+                    i += 2
+                    continue
             # grouping of adjacent equal keys written by hand
             if i + 2 < len(stmts):
                 mg = _manual_groupby(s, stmts[i + 1], stmts[i + 2])
